@@ -935,7 +935,8 @@ def c15_r12(ctx):
                   "(NameError when the client module is imported)", fi.loc(), okmsg=f"argument annotations of kind ast.{kind} are rewritten")
     # (b) the rewriter itself: Name -> Constant when imported; Subscript -> slice recursed; Tuple -> every element recursed; anything else unchanged
     up = repo.func(CFR + "_update_name_to_constant")
-    p = up.node.args.args[1].arg
+    from ..util import real_params
+    p = real_params(up)[0]
 
     def mk(kind, imported=True):
         def atom(e):
